@@ -22,6 +22,7 @@ import asyncio
 import enum
 from functools import partial
 import itertools
+import operator
 import sys
 import types
 import warnings
@@ -598,6 +599,11 @@ def render(spec, *, cname=None, register=True):
                 combined = tls[-1]
                 for x in reversed(tls[:-1]):
                     combined = x | combined
+            elif style.get("ior"):
+                # `go = t1` then `go |= t2` (t1 may also be bound to another event name: augmented assignment must not alter it)
+                combined = tls[0]
+                for x in tls[1:]:
+                    combined = operator.ior(combined, x)
             else:
                 combined = tls[0]
                 for x in tls[1:]:
